@@ -51,8 +51,23 @@ func (t *trapCtx) argmaxOver(info *types.Info, asg map[types.Object][]core.Assig
 			return false
 		}
 		rs, ok := asg[ko][0].Node.(*ast.RangeStmt)
-		if !ok || asg[ko][0].Idx != 0 || core.ObjOf(info, rs.X) != bo {
+		if !ok || asg[ko][0].Idx != 0 {
 			return false
+		}
+		if core.ObjOf(info, rs.X) != bo {
+			// or the key of a range over the table base was made as long as: base := make(T, len(G)); for k := range G
+			sameLen := false
+			if len(asg[bo]) == 1 && asg[bo][0].RHS != nil {
+				if mk, ok := ast.Unparen(asg[bo][0].RHS).(*ast.CallExpr); ok && core.IsBuiltin(info, mk, "make") && len(mk.Args) >= 2 {
+					if lc, ok := ast.Unparen(mk.Args[1]).(*ast.CallExpr); ok && core.IsBuiltin(info, lc, "len") && len(lc.Args) == 1 &&
+						core.ObjOf(info, lc.Args[0]) != nil && core.ObjOf(info, lc.Args[0]) == core.ObjOf(info, rs.X) && t.nonEmptyTable(info, rs.X, pkg) {
+						sameLen = true
+					}
+				}
+			}
+			if !sameLen {
+				return false
+			}
 		}
 		if !(rs.Body.Pos() <= d.Pos && d.Pos <= rs.Body.End()) {
 			return false
